@@ -101,3 +101,35 @@ Proof.
   repeat split; intros H; [eapply C06_e_fresh_sound | eapply C06_s_fresh_sound | eapply C06_positive_sound | eapply C06_negative_sound]; eassumption.
 Qed.
 Print Assumptions C06_source_judgements_sound.
+
+(** ** generator side (pattern.py `evar_is_free`, which despite its name answers "is fresh"): notation
+       does not change the answer.  Model and proofs: coq/Py (notes/PY_MODEL.md).  The statements hold for
+       every configuration of the model in which the listed repairs are present; the current code has
+       D3 and D5 repaired (commits 1bcbbf7, 2592e1c); `f_mv_keep_subst` is the recorded finding D9d
+       (a substitution on a declared-fresh variable of a metavariable is dropped; pinned by
+       test_pattern.py), on which model and code differ only in that corner. *)
+From Pi2 Require Import Py.Pattern Py.ExpandFacts Py.Total Py.Termination Py.Witness.
+Theorem C06_py_fresh_is_judgement_of_expansion : forall f,
+  f_mv_keep_subst f = true -> f_inst_extend f = true -> f_fresh_simplify f = true ->
+  forall n p x r, py_fresh f n p x = Some r -> r = e_fresh (expand f p) x.
+Proof. exact py_fresh_expand. Qed.
+Print Assumptions C06_py_fresh_is_judgement_of_expansion.
+Theorem C06_py_fresh_total : forall f,
+  f_mv_keep_subst f = true -> f_inst_extend f = true -> f_fresh_simplify f = true ->
+  forall p x n, (dm p one <= n)%nat -> py_fresh f n p x = Some (e_fresh (expand f p) x).
+Proof. exact py_fresh_total. Qed.
+(** hence the generator-side judgement is sound for every instantiation of the expansion (checker-side theorem) *)
+Corollary C06_py_fresh_sound : forall f,
+  f_mv_keep_subst f = true -> f_inst_extend f = true -> f_fresh_simplify f = true ->
+  forall n p x vars plugs q, py_fresh f n p x = Some true ->
+    inst guards_sound (expand f p) vars plugs = Some q -> concrete q = true -> efree x q = false.
+Proof.
+  intros f H1 H2 H3 n p x vars plugs q Hf Hi Hc.
+  apply (C06_e_fresh_sound (expand f p) x vars plugs q); [|exact Hi|exact Hc].
+  symmetry. exact (py_fresh_expand f H1 H2 H3 n p x true Hf).
+Qed.
+Print Assumptions C06_py_fresh_sound.
+(** pinned tree (before commit 1bcbbf7): and(x1, x2) is judged fresh for x1 *)
+Theorem C06_py_refuted_notation_pinned :
+  exists p x n, py_fresh flags_no_fresh_simplify n p x = Some true /\ e_fresh (expand flags_no_fresh_simplify p) x = false.
+Proof. exists (and_p (PEVar 1) (PEVar 2)), 1, 20%nat. vm_compute. split; reflexivity. Qed.
